@@ -80,7 +80,7 @@ enga_prop!(C10, "C10", profiles = CHECKED,
     quick = 32000, thorough = 1_000_000,
     assumptions = COMMON_ASSUME.to_vec());
 
-enga_prop!(C13, "C13", profiles = CHECKED,
+enga_prop!(C13A, "C13", profiles = CHECKED,
     profile = { let mut p = Profile::base(); p.max_ops = 30; p.w_clone = 12; p.w_droparena = 12; p.owned_pct = 55; p.drop_ty_pct = 45; p.prelude_pct = 15; p.w_detach = 12; p.w_typed = 40; p.w_drop = 35; p.backends = &[(6, Backend::Vec), (2, Backend::Anon), (3, Backend::File)]; p },
     mode = Mode { count_unmount: true, ..Mode::default() },
     nontrivial = |c| c.contains("owned-outlived-original") && c.contains("value-dropped-via-handle"),
